@@ -679,7 +679,7 @@ impl CaseDriver for Dag {
     fn describe(&self, t: Tier) -> Describe {
         Describe {
             rule: format!(
-                "placed libraries of n = {}..={} cells: every DAG (cell i may instantiate any subset of the cells j < i) x every listing order of the cells (n!) x reflection base (instance k of a cell gets combination (base+k) mod 4, so all four occur) x content profile (0/1/2 assignments and cuts per layout, witness quadruples with four different numbers); value deviations (transport: message as exported / through prost encode+decode, library / cell names incl. empty and non-ASCII, outline 1-3 steps / repeated step / zero, metals 0..3, views layout / layout+abstract / abstract-only leaf, a layout view named differently from its cell, per-cell assignment and cut counts, net names, per-instance reflection, location incl. (0,0) and negative, duplicated instance) in at most {} place(s). State = one library description + transport; non-trivial = at least one instance, assignment or cut.",
+                "placed libraries of n = {}..={} cells: every DAG (cell i may instantiate any subset of the cells j < i) x every listing order of the cells (n!) x reflection base (instance k of a cell gets combination (base+k) mod 4, so all four occur) x content profile (0/1/2 assignments and cuts per layout, witness quadruples with four different numbers); value deviations (transport: message as exported / through prost encode+decode, library / cell names incl. empty and non-ASCII, outline 1-3 steps / repeated step / zero, metals 0..3, views layout / layout+abstract / abstract-only leaf, a layout view named differently from its cell, per-cell assignment and cut counts, a cut / an assignment stated twice (adjacent or apart), net names, per-instance reflection, location incl. (0,0) and negative, duplicated instance) in at most {} place(s). State = one library description + transport; non-trivial = at least one instance, assignment or cut.",
                 self.nmin,
                 self.nmax,
                 self.bound(t)
@@ -748,7 +748,22 @@ impl CaseDriver for Dag {
                 let net = if a == 0 { [format!("n{i}{a}"), String::new(), "Ñet 1".to_string()][c.cost(3, "net")].clone() } else { format!("n{i}{a}") };
                 assigns.push((net, CrossD(1 + a, 11 + i + 5 * a, a, 23 + i + a)));
             }
-            let cuts: Vec<CrossD> = (0..ncut).map(|a| CrossD(a, 31 + i, 1 + a, 47 + i + a)).collect();
+            let mut cuts: Vec<CrossD> = (0..ncut).map(|a| CrossD(a, 31 + i, 1 + a, 47 + i + a)).collect();
+            // the same cut / the same assignment stated twice in a row, or once more at the end of the list
+            if !cuts.is_empty() {
+                match c.cost(3, "cut-repeated") {
+                    0 => {}
+                    1 => cuts.insert(1, cuts[0].clone()),
+                    _ => cuts.push(cuts[0].clone()),
+                }
+            }
+            if !assigns.is_empty() {
+                match c.cost(3, "assign-repeated") {
+                    0 => {}
+                    1 => assigns.insert(1, assigns[0].clone()),
+                    _ => assigns.push(assigns[0].clone()),
+                }
+            }
             // the layout view may carry a name of its own (the cell is still known by the cell's name)
             let view_name = if views != 2 && c.cost(2, "layout-view-named-differently") == 1 { Some(format!("{cname}_impl")) } else { None };
             let layout = if views == 2 { None } else { Some(LayoutD { view_name, ox: ox.clone(), oy: oy.clone(), metals, insts, assigns, cuts }) };
